@@ -36,19 +36,34 @@ def impl_one(src: str):
         nodes = cst_parser(chunks)
     except Exception as e:  # noqa
         return {"chunks": chunks, "error": core.exc_name(e)}
-    out = []
-    for n in nodes:
-        out.append({
-            "kind": type(n).__name__, "start": n.line_no_start, "stop": n.line_no_end, "value": n.value,
-            "name": getattr(n, "name", None), "is_double_q": getattr(n, "is_double_q", None), "is_docstr": getattr(n, "is_docstr", None),
-        })
-    return {"chunks": chunks, "nodes": out}
+    def flat(ns):
+        return [{"kind": type(n).__name__, "start": n.line_no_start, "stop": n.line_no_end, "value": n.value,
+                 "name": getattr(n, "name", None), "is_double_q": getattr(n, "is_double_q", None), "is_docstr": getattr(n, "is_docstr", None)} for n in ns]
+
+    out = flat(nodes)
+    # the public entry point (cdd.shared.cst.cst_parse) must be the composition of the two stages
+    try:
+        from cdd.shared.cst import cst_parse
+
+        top = flat(cst_parse(src))
+    except Exception as e:  # noqa
+        top = {"error": core.exc_name(e)}
+    res = {"chunks": chunks, "nodes": out}
+    if top != out:
+        res["entry_point_nodes"] = top
+    return res
 
 
 def oracle(src: str, r: dict):
     """The property itself, on the real output. Returns None or a description of the failure."""
     if "error" in r:
         return "raises %s" % r["error"]
+    if "entry_point_nodes" in r:
+        top = r["entry_point_nodes"]
+        if isinstance(top, dict):
+            return "entry-point cst_parse raises %s" % top["error"]
+        if "".join(n["value"] for n in top) != src:
+            return "entry-point cst_parse: node values do not concatenate to the input"
     if "".join(r["chunks"]) != src:
         return "scanner chunks do not concatenate to the input"
     nodes = r["nodes"]
@@ -155,7 +170,7 @@ def run(chk: core.Check) -> int:
         if bad:
             chk.failure({"oracle": bad.split(" ")[0]}, "cst_parse(%r): %s" % (s[:200], bad), {"src": s, "impl": r})
         if m is not None:
-            if "error" in m or m.get("nodes") != r.get("nodes"):
+            if "error" in m or m.get("nodes") != r.get("nodes") or "entry_point_nodes" in r:
                 n_dis += 1
                 chk.disagreement("C09 correspondence: Cst.cstParse vs cdd.shared.cst.cst_parse", {"src": s[:2000]},
                                  r.get("nodes") if len(s) < 2000 else "(long)", m.get("nodes", m) if len(s) < 2000 else "(long)")
